@@ -131,6 +131,18 @@ def gen_docs(rng, n):
                     '<g id="g1" transform="%s"><g id="g2" transform="%s" %s><rect id="r1" x="10" y="10" width="40" height="30" fill="green" stroke="navy" stroke-width="4"/>'
                     '<circle id="c1" cx="60" cy="50" r="18" fill="orange"/></g><path id="l1" d="M 5 80 L 90 80" stroke="red" stroke-width="6"/>'
                     '<path id="l2" d="M 5 90 L 90 90" fill="none"/></g></svg>' % (NS, t1, t2, deco))
+    # nodes whose absolute layer box is under one pixel wide and / or high: not zero-sized, must export (canvas = ceil, min 1 px)
+    for i in range(max(6, n // 5)):
+        sc = rng.choice([0.1, 0.05, 0.25])
+        docs.append('<svg %s width="120" height="100"><rect id="bar%d" x="20" y="30.2" width="60" height="%s" fill="red"/>'
+                    '<rect id="sliver%d" x="50.3" y="10" width="%s" height="40" fill="blue"/>'
+                    '<circle id="dot%d" cx="90.5" cy="70.5" r="%s" fill="green"/><rect id="speck%d" x="10.1" y="80.2" width="%s" height="%s" fill="black"/>'
+                    '<g id="tinyg%d" transform="translate(30 60) scale(%s)"><rect id="tinyr%d" width="%s" height="%s" fill="purple"/></g>'
+                    '<g id="thing%d"><path id="thinp%d" d="M 5 5 L 100 5 L 100 %s L 5 %s Z" fill="teal"/></g>'
+                    '<path id="hair%d" d="M 10 95 L 110 95" stroke="navy" stroke-width="%s"/></svg>'
+                    % (NS, i, rng.choice([0.5, 0.1, 0.9, 0.3]), i, rng.choice([0.4, 0.2, 0.8]), i, rng.choice([0.3, 0.45, 0.2]), i,
+                       rng.choice([0.4, 0.7]), rng.choice([0.6, 0.3]), i, sc, i, rng.choice([3, 5, 8]), rng.choice([2, 4, 30]),
+                       i, i, rng.choice([5.4, 5.8]), rng.choice([5.4, 5.8]), i, rng.choice([0.5, 0.25, 0.8])))
     for i in range(max(6, n // 5)):
         inner = rng.choice(['<path id="i%dp" d="M 0 0 L 8 4 L 0 8 Z" fill="red"/>',
                             '<g id="i%dg"><rect id="i%dr" width="6" height="6" fill="blue"/></g>',
@@ -348,8 +360,8 @@ def run(ctx):
             counts[n['id']] = counts.get(n['id'], 0) + 1
         uniq = [n for n in withid if counts[n['id']] == 1 and '\t' not in n['id']]
         nodes_total += len(uniq)
-        if len(uniq) > per:
-            uniq = rng.sample(uniq, per)
+        if len(uniq) > (max(per, 12) if name.startswith('gen') else per):      # generated documents: every id
+            uniq = rng.sample(uniq, max(per, 12) if name.startswith('gen') else per)
         sd = single_docs(r['svg'], [n['id'] for n in uniq])
         for n in uniq:
             if n['id'] not in sd:
